@@ -4,7 +4,8 @@ D1 one classification for inspection and run time (sibling first-match chains),
 D2 the required-key analysis is order-sensitive,
 D3 the type-flow check carries across context-only nodes and accepts only what the run-time gate accepts,
 D4 keys a component publishes as created are written whatever the context already holds,
-D5 the abstract context state is updated completely and in the right order.
+D5 the abstract context state is updated completely and in the right order,
+D6 run time (get_processing_parameter_names) and inspection (`parameters` metadata) enumerate the same parameters.
 """
 from __future__ import annotations
 
